@@ -174,7 +174,8 @@ func (reader *CollectionReader) StartRead(ctx context.Context) {
 			_, shouldRead := reader.shouldReadFunc(&dbInfo, tmpCollectionInfo)
 			if !shouldRead {
 				partitionLog.Info("the partition should not be read", zap.String("name", collectionName))
-				return true
+				// not consumed: another task sharing this meta op may be the one that replicates the collection
+				return false
 			}
 
 			err := reader.channelManager.AddPartition(ctx, &dbInfo, tmpCollectionInfo, info)
